@@ -209,7 +209,7 @@ PROPS = {
                 "crash instruction pointers inside / outside mappings, thread stacks; every recorded region is compared byte for byte with a snapshot of the "
                 "target's memory taken while it is blocked; the IP window is predicted from the target's memory map through the aggregate model. "
                 "Distinct = (list length, app lengths, tag set). Also requests made by a thread whose seccomp filter refuses process_vm_readv and pread64 (the reader falls back to PTRACE_PEEKDATA): application regions of every length mod 8 that end at a hole, crash instruction pointers just before it.",
-        "expected_tags": ["bytes.compared", "cfg.app", "ipwindow.expected", "ip.unmapped", "cfg.sanitize", "read.ptrace", "app.partialword", "app.model", "ipwindow.model"],
+        "expected_tags": ["bytes.compared", "cfg.app", "ipwindow.expected", "ip.unmapped", "cfg.sanitize", "read.ptrace", "app.partialword", "app.model", "ipwindow.model", "stack.model"],
         "trusted_base": ["the harness reads the target's memory through /proc/<pid>/mem while it is blocked"],
         "assumptions": ["first or later dump of a writer alike (C19)", "an unreadable app region or IP window aborts the dump with Err (outside C07)",
                         "with sanitization the stack regions are intentionally altered (C12) and are not byte-compared"],
